@@ -44,6 +44,78 @@ def case_blocks(f, names):
     return out
 
 
+def mt_pledge_control(prog, res):
+    """The multithreaded branch of ZSTD_compressStream2 must control the pledged size itself: a frame made of several
+    jobs passes through ZSTD_compressEnd only for its last job, whose own pledge is that job's size.  After every call of
+    ZSTDMT_compressStream_generic: (too much) no success return is reachable, and (too few) the end-of-frame session
+    reset is not reachable, without the passing edge of a comparison of consumedSrcSize with pledgedSrcSizePlusOne —
+    except when no size was pledged or the call itself failed; and the failing edges lead to srcSize_wrong."""
+    R = "T3.cut"
+    f = prog.fn("ZSTD_compressStream2")
+    calls = f.call_roots("ZSTDMT_compressStream_generic")
+    if not calls:
+        if any(d.startswith("-DZSTD_MULTITHREAD") for d in res.info.get("defines", [])) if isinstance(res.info, dict) else False:
+            raise Broken("ZSTD_compressStream2 no longer calls ZSTDMT_compressStream_generic in a multithreaded build")
+        return
+    starts = [(b, i + 1) for b, i in calls]
+    region = f.flow(starts)
+
+    def cmp_branches(ops):
+        out = []
+        for bid, cond, t, fl in f.branches():
+            if (bid, len(f.blocks[bid]["el"])) not in region:
+                continue
+            c = strip_casts(f.resolve_x(cond))
+            neg = False
+            while c is not None and c.get("k") == "un" and c.get("op") == "!":
+                c = strip_casts(f.resolve_x(c["e"])); neg = not neg
+            hit = None
+            for y in f.walk_deep(c):
+                if y.get("k") == "bin" and y.get("op") in ops:
+                    fs = {z.get("f") for z in f.walk_deep(y) if z.get("k") == "mem"}
+                    if {"consumedSrcSize", "pledgedSrcSizePlusOne"} <= fs:
+                        hit = y
+            if hit is None:
+                continue
+            # the branch is taken (towards the failure) when the comparison holds, unless negated
+            out.append((bid, fl if not neg else t, t if not neg else fl, hit))
+        return out
+
+    nopledge = cond_edges(f, lambda x: x.get("k") == "bin" and x["op"] == "!=" and
+                          mentions(fields=["pledgedSrcSizePlusOne"], consts=[0])(x), "false")
+    nopledge += cond_edges(f, lambda x: x.get("k") == "bin" and x["op"] == "==" and
+                           mentions(fields=["pledgedSrcSizePlusOne"], consts=[0])(x), "true")
+    nopledge = [e for e in nopledge if (e[0], len(f.blocks[e[0]]["el"])) in region]
+    failed = cond_edges(f, lambda x: x.get("k") == "call" and x.get("c") in ("ERR_isError", "ZSTD_isError"), "true")
+    failed = [e for e in failed if (e[0], len(f.blocks[e[0]]["el"])) in region]
+    much = cmp_branches((">", "<", ">=", "<="))
+    few = cmp_branches(("!=", "=="))
+    # a `!=` inside a `&&` chain whose value is stored: the branch found is the one on the stored value; an `==` form passes on its true edge
+    few_pass = [(b, p if h["op"] == "!=" else q) for b, p, q, h in few]
+    few_fail = [(b, q if h["op"] == "!=" else p) for b, p, q, h in few]
+    much_pass = [(b, p) for b, p, q, h in much]
+    much_fail = [(b, q) for b, p, q, h in much]
+    succ = [t for t in guards.success_nodes(f) if t in region]
+    from ..ir import err_name
+    errs = [t for t in f.find_roots(lambda x: bool(x.get("err")) and err_name(x) == "srcSize_wrong") if t in region]
+    ok = bool(much) and bool(succ) and f.must_pass(via_roots=errs, via_edges=much_pass + nopledge + failed, starts=starts, targets=succ)
+    res.check(ok, R, "compressStream2:mt-not-more-than-pledged", f.loc,
+              "after ZSTDMT_compressStream_generic no success return without the passing edge of `consumedSrcSize+1 > pledgedSrcSizePlusOne` (%d comparison(s))" % len(much),
+              "the multithreaded branch can return success without comparing the bytes consumed with the pledged size "
+              "(more input than pledged is accepted and the frame header lies)")
+    ends = [t for t in f.call_roots("ZSTD_CCtx_reset") if t in region]
+    ok = bool(few) and bool(ends) and f.must_pass(via_roots=errs, via_edges=few_pass + nopledge + failed, starts=starts, targets=ends)
+    res.check(ok, R, "compressStream2:mt-exactly-pledged-at-end", f.loc,
+              "the end-of-frame session reset is reached only through the passing edge of `consumedSrcSize+1 != pledgedSrcSizePlusOne` (%d comparison(s))" % len(few),
+              "the multithreaded branch can complete a frame without comparing the bytes consumed with the pledged size "
+              "(a frame ending with fewer bytes than pledged is accepted)")
+    # the failing edges end in srcSize_wrong: no success return from them without executing an ERROR(srcSize_wrong) root
+    fe = much_fail + few_fail
+    ok = bool(fe) and bool(errs) and f.must_pass(via_roots=errs, starts=[(s, 0) for b, s in fe], targets=succ)
+    res.check(ok, R, "compressStream2:mt-pledge-failure-is-srcSize_wrong", f.loc, "both failing edges produce srcSize_wrong",
+              "a failed pledged-size comparison in the multithreaded branch no longer produces srcSize_wrong")
+
+
 def run(tier):
     res = Result("C09", tier)
     tus, info = extract(["decompress", "compress"])
@@ -202,6 +274,7 @@ def run(tier):
                    alt_edges=nopledge2, sites=es, why="(a frame could end with fewer bytes than pledged)")
     res.check(len(nopledge) == 1 and len(nopledge2) == 1, R, "pledge-known-tests", c.loc, "pledged-size-known tests present",
               "`pledgedSrcSizePlusOne != 0` tests: %d/%d" % (len(nopledge), len(nopledge2)))
+    mt_pledge_control(prog, res)
     # the MT path ends frames through the same function (worker-side)
     if prog.has_fn("ZSTDMT_compressionJob"):
         j = prog.fn("ZSTDMT_compressionJob")
